@@ -674,7 +674,9 @@ def fam_qcqp(x, rng, k):
         inside = np.linalg.norm(yu) <= r
         det = dict(n=n, A=A, b=b, d=d, r=r, res=res.a, ret=ret)
         k.true(name + ":return-flag-inconsistent-with-constraint-activity",
-               ret == (0 if inside else 1) or abs(np.linalg.norm(yu) - r) < 1e-4 * r, **det)
+               # (near the boundary either flag is right: relative band 1e-4, and the same absolute slack on the squared norm that the
+               # feasibility test below grants - for tiny problems, r ~ 1e-5, it is the absolute one that matters)
+               ret == (0 if inside else 1) or abs(np.linalg.norm(yu) - r) < 1e-4 * r or abs(float(yu @ yu) - r * r) < 1e-9, **det)
         k.true(name + ":point-infeasible", float(y @ y) <= r * r * (1 + 1e-7) + 1e-9, **det)
         if ret == 0:
             k.near(name + ":unconstrained-return-but-gradient-nonzero", g, np.zeros(n), 1e-9 * sc, **det)
